@@ -119,7 +119,9 @@ class LinearAlgebraMethods(object):
         if not A.rows == A.cols:
             raise ValueError('need n*n matrix')
         # get from cache if possible
-        if use_cache and isinstance(A, ctx.matrix) and A._LU:
+        # (only a factorization computed at the current working precision is reused)
+        if use_cache and isinstance(A, ctx.matrix) and A._LU and \
+            A._LU_prec == ctx.prec:
             return A._LU
         if not overwrite:
             orig = A
@@ -155,6 +157,7 @@ class LinearAlgebraMethods(object):
         # cache decomposition
         if not overwrite and isinstance(orig, ctx.matrix):
             orig._LU = (A, p)
+            orig._LU_prec = ctx.prec
         return A, p
 
     def L_solve(ctx, L, b, p=None):
